@@ -30,6 +30,7 @@ GenInit == Init /\ hist = <<>> /\ nh = [s \in Sessions |-> [t \in Topics |-> 0]]
 GenSdk ==
   \/ (\E n \in Notifs : TimerFire(n) \/ OrphFire(n) \/ CallbackRun(n)) /\ Same
   \/ RaceChange /\ Same
+  \/ (\E s \in Sessions, u \in Uris : FinishUnsub(s, u)) /\ Same
   \/ (\E s \in Sessions : Read(s) \/ Invalidate(s)) /\ Same
   \/ \E s \in Sessions : UserHandler(s) /\ nh' = [nh EXCEPT ![s][hnd[s].msg.topic] = @ + 1] /\ UNCHANGED <<hist, stopped>>
   \/ (\E s \in Sessions, c \in Slots : ServeList(s, c) \/ CachePut(s, c)) /\ Same
@@ -54,12 +55,12 @@ Stop == /\ ~stopped /\ EnvOK /\ Len(hist) >= MinSteps
         /\ stopped' = TRUE /\ UNCHANGED <<vars, hist, nh>>
 DrainRelease == /\ stopped /\ EnvOK /\ gates # {}
                 /\ gates' = {}
-                /\ UNCHANGED <<now, ver, ref, refDue, orph, cbs, sess, lsub, rsub, usub, chan, nq, hnd, cache, call, handled, race, budget, ent, got, bad>>
+                /\ UNCHANGED <<now, ver, ref, refDue, orph, cbs, sess, lsub, rsub, usub, pun, chan, nq, hnd, cache, call, handled, race, budget, ent, got, bad>>
                 /\ Same
 DrainTick == /\ stopped /\ EnvOK /\ gates = {} /\ now < MaxTime + D
              /\ \E n \in Notifs : TimerArmed(n)
              /\ now' = now + 1
-             /\ UNCHANGED <<ver, ref, refDue, orph, cbs, sess, lsub, rsub, usub, chan, nq, hnd, cache, call, handled, gates, race, budget, ent, got, bad>>
+             /\ UNCHANGED <<ver, ref, refDue, orph, cbs, sess, lsub, rsub, usub, pun, chan, nq, hnd, cache, call, handled, gates, race, budget, ent, got, bad>>
              /\ Same
 
 GenNext == GenSdk \/ GenEnv \/ Stop \/ DrainRelease \/ DrainTick
@@ -72,4 +73,5 @@ Export == IF Terminal THEN PrintT(ToJson(Scenario("terminal"))) ELSE TRUE
 \* expected counterexamples (leads): print the scenario, then fail
 LeadNeverLost == IF NeverLost THEN TRUE ELSE PrintT(ToJson(Scenario("NeverLost"))) /\ FALSE
 LeadFresh == IF Fresh THEN TRUE ELSE PrintT(ToJson(Scenario("Fresh"))) /\ FALSE
+LeadUpdated == IF UpdatedExactlySubscribers THEN TRUE ELSE PrintT(ToJson(Scenario("UpdatedExactlySubscribers"))) /\ FALSE
 =============================================================================
